@@ -391,6 +391,17 @@ where
         b: NodeIndex<Ix>,
         weight: E,
     ) -> Result<EdgeIndex<Ix>, GraphError> {
+        // Check the endpoints before anything is modified: a vacant edge slot must not be
+        // taken off the free list (and filled in) by a call that fails.
+        if cmp::max(a.index(), b.index()) >= self.g.nodes.len() {
+            return Err(GraphError::NodeMissed(cmp::max(a.index(), b.index())));
+        }
+        for &node in &[a, b] {
+            if !self.contains_node(node) {
+                return Err(GraphError::NodeMissed(node.index()));
+            }
+        }
+
         let edge_idx;
         let mut new_edge = None::<Edge<_, _>>;
         {
